@@ -178,6 +178,7 @@ type c06SCase struct {
 	ReasonLen int    `json:"reason_len"`
 	Peer      string `json:"peer"` // echo-same | echo-other | none
 	Second    string `json:"second,omitempty"`
+	Runes     int    `json:"runes,omitempty"` // 0 ASCII reason; 2/3/4: reason built from 2-/3-/4-byte UTF-8 runes (same byte length)
 }
 
 var c06Extra = []int64{-1, 65536, 66536, 100000, 1 << 31}
@@ -188,13 +189,30 @@ const c06SweepCodes = 65536
 
 func c06SenderTotal() int {
 	sweep := (c06SweepCodes + len(c06Extra)) * 2 * 2 * 3
-	reasons := 131 * len(c06RepCodes) * 2 * 3
+	reasons := 131 * len(c06RepCodes) * 2 * 3 * 4
 	return sweep + reasons + 4
+}
+
+// c06Reason builds a reason of exactly n bytes; runes > 0 uses multi-byte
+// UTF-8 runes (padded with ASCII), so byte length and rune count differ.
+func c06Reason(n, runes, seed int) string {
+	if runes == 0 || n < runes {
+		return mxASCII(n, seed)
+	}
+	r := map[int]string{2: "\u00e9", 3: "\u20ac", 4: "\U0001F600"}[runes]
+	s := ""
+	for len(s)+runes <= n {
+		s += r
+	}
+	for len(s) < n {
+		s += "x"
+	}
+	return s
 }
 
 func c06SenderCase(i int) c06SCase {
 	sweep := (c06SweepCodes + len(c06Extra)) * 2 * 2 * 3
-	reasons := 131 * len(c06RepCodes) * 2 * 3
+	reasons := 131 * len(c06RepCodes) * 2 * 3 * 4
 	switch {
 	case i < sweep:
 		peer := c06Peers[i%3]
@@ -218,7 +236,9 @@ func c06SenderCase(i int) c06SCase {
 		i /= 2
 		code := c06RepCodes[i%len(c06RepCodes)]
 		i /= len(c06RepCodes)
-		return c06SCase{Kind: "close", Client: client, Code: code, ReasonLen: i, Peer: peer}
+		runes := []int{0, 2, 3, 4}[i%4]
+		i /= 4
+		return c06SCase{Kind: "close", Client: client, Code: code, ReasonLen: i, Peer: peer, Runes: runes}
 	}
 	i -= sweep + reasons
 	return c06SCase{Kind: "closenow", Client: i%2 == 1, Second: []string{"closenow", "close"}[i/2%2]}
@@ -256,7 +276,7 @@ func c06SenderOne(c *fw.Ctx, cs c06SCase) {
 		c06CloseNowOne(c, cs, desc)
 		return
 	}
-	reason := mxASCII(cs.ReasonLen, int(cs.Code&0xff))
+	reason := c06Reason(cs.ReasonLen, cs.Runes, int(cs.Code&0xff))
 	in, echoCode, echoes := c06PeerReply(cs)
 	t := mxNewTransport(in)
 	conn := mxConn(t, cs.Client, "")
